@@ -1,6 +1,7 @@
 package props
 
 import (
+	"runtime"
 	"encoding/json"
 	"fmt"
 	"sort"
@@ -40,6 +41,8 @@ type c13Case struct {
 	Seqs   []string `json:"seqs"`
 	// Raw carries the rows instead of Seqs when they hold bytes >= 0x80 (JSON strings cannot)
 	Raw [][]byte `json:"raw,omitempty"`
+	// Procs: GOMAXPROCS during the case (0 = unchanged)
+	Procs int `json:"gomaxprocs,omitempty"`
 }
 
 // c13Payload is the JSON-safe form of a case.
@@ -187,6 +190,9 @@ func c13NonASCII(seqs []string) bool {
 }
 
 func c13Check(c *mc.Ctx, cs c13Case) {
+	if cs.Procs > 0 {
+		defer runtime.GOMAXPROCS(runtime.GOMAXPROCS(cs.Procs))
+	}
 	switch cs.Op {
 	case "dedup":
 		c13Dedup(c, cs)
@@ -1109,6 +1115,17 @@ func c13Tasks(tier string) []mc.Task {
 			r1[7], r2[L-3] = 'G', '-'
 			c13Check(c, c13Case{Op: "compress", Alpha: align.NUCLEOTIDS, Seqs: []string{string(r1), string(r2)}})
 			c13Check(c, c13Case{Op: "compress", Alpha: align.NUCLEOTIDS, Seqs: []string{string(r1)}})
+			if L == 65537 {
+				// long alignments of few patterns under 2, 3, 8 processors (pattern counts gathered by several workers)
+				r3 := make([]byte, L)
+				for j := range r3 {
+					r3[j] = "ACGT-"[(j/3+j/7)%5]
+				}
+				for _, procs := range []int{2, 3, 8} {
+					c13Check(c, c13Case{Op: "compress", Alpha: align.NUCLEOTIDS, Seqs: []string{string(r1), string(r2)}, Procs: procs})
+					c13Check(c, c13Case{Op: "compress", Alpha: align.NUCLEOTIDS, Seqs: []string{string(r1), string(r3)}, Procs: procs})
+				}
+			}
 			if c.Expired() {
 				return
 			}
